@@ -951,7 +951,7 @@ def plan_jobs(pid: str, tier: str, seed: int, names=None) -> list:
         if tier == "quick":
             bound, limit, nr, depth = (2 if n >= 3 else 3), 110, 6, (2 if n >= 3 else 1)
         else:
-            bound, limit, nr, depth = (4 if n >= 3 else 8), 2200, 120, (2 if n >= 3 else 1)
+            bound, limit, nr, depth = (4 if n >= 3 else 8), 450, 60, (2 if n >= 3 else 1)
         for k, root in enumerate(_roots(n, depth)):
             jobs.append((name, root, bound, limit, nr, seed * 101 + k))
     return jobs
